@@ -67,6 +67,8 @@ def gen_sequence(rng, syms):
             return {"kind": kind, "multiplier": E.num(rng.choice([Fraction(5, 2), Fraction(1, 2), Fraction(3, 2), Fraction(9, 4)]))}   # (natively: the float 2.5)
         return {"kind": kind, "multiplier": E.sym(rng.choice(syms)) if syms and rng.random() < 0.4 else E.num(rng.randint(1, 3))}
     if kind == "arithmetic":
+        if rng.random() < 0.12:
+            return {"kind": kind, "initial_term": p(), "difference": E.num(0)}     # a constant progression written as an arithmetic one
         return {"kind": kind, "initial_term": p(), "difference": p()}
     if kind == "geometric":
         # ratio 1 is outside C07 (the closed form is 0/0 = nan, not a finite value); a symbolic ratio could be linked
